@@ -10,6 +10,7 @@ CHECKS = {
     # id: (category, text, technique)
     "C01": ("other", "Function contracts on the real value-resolution / readiness / unpacking functions discharged by z3 for all inputs (get_value_source, _resolve_input, collect_inputs_for_node, _has_input, _is_stale, _needs_execution, wrap_outputs, update_value ...); run-level equality with dependency-order evaluation only relative to paper lemma L-C01, plus a bounded end-to-end oracle on generated DAG programs", "contract-based deductive verification (pyvc: AST->VC->z3) + bounded native oracle"),
     "C03": ("other", "Activation / stale-decision clearing / decision validation / gate execution contracts discharged by z3 (_get_activated_nodes, _clear_stale_gate_decisions, validate_routing_decision, execute_ifelse/route ...); get_ready_nodes' blocking clause and the run-level trace property are bounded only", "contract-based deductive verification + bounded native oracle"),
+    "C04": ("other", "Step-bound contract on both runners' superstep loops (at most max_iterations supersteps; InfiniteLoopError exactly when nodes are still ready afterwards; quiescent runs return), staleness / stale-decision-clearing / version contracts discharged by z3; iteration counts equal to the sequential while-loop only by the bounded loop-family oracle", "contract-based deductive verification (PATH + VC) + bounded native oracle"),
     "C08": ("proof", "PATH obligations (path-complete symbolic execution of the loop-free lifecycle templates): every validator precedes every effect on all paths of run/map, for both runners; input-spec exactness is bounded only", "contract-based deductive verification (PATH obligations over ghost traces)"),
     "C11": ("proof", "PATH obligations on run templates: surfaced exception object is the cause of the internal wrapper; continue mode never raises after RunStart; FAILED values go through filter_outputs with default on_missing", "contract-based deductive verification (PATH obligations)"),
     "C12": ("proof", "PATH obligations: RunStart..exactly one RunEnd with the observed status on every terminated path of run/map templates, shutdown last and only at top level; dispatcher delivery contracts", "contract-based deductive verification (PATH obligations)"),
